@@ -40,7 +40,7 @@ Inductive ddl :=
 (* ---- getPostgresDataTypes, read through the regenerated table ---- *)
 Local Open Scope string_scope.
 Definition prim_str (p:prim) : string :=
-  match p with PString => "string" | PInt => "int" | PDate => "date" | POther => "other" end.
+  match p with PString => "string" | PInt => "int" | PDate => "date" | POther => "other" | PRef1 => "no_primitive" end.
 Definition ty_of_lit (s:string) : sqlty :=
   if String.eqb s "integer" then TInteger else if String.eqb s "date" then TDate
   else if String.eqb s "bigint" then TBigint else if String.eqb s "bigserial" then TBigserial
